@@ -5,6 +5,7 @@ import (
 	"encoding/json"
 	"errors"
 	"fmt"
+	"github.com/gobuffalo/plush/v5/helpers/hctx"
 	"html/template"
 	"io"
 	"math"
@@ -90,6 +91,26 @@ type kOuterIface struct {
 
 // a defined type over plush.HelperContext
 type kMyHC plush.HelperContext
+
+type kEmbHC struct{ plush.HelperContext }
+
+type kBigHC interface {
+	hctx.HelperContext
+	Extra()
+}
+
+func twinBig() interface{} {
+	type Twin struct {
+		A, B, C int
+		Name    string
+	}
+	return Twin{1, 2, 3, "big"}
+}
+
+func twinSmall() interface{} {
+	type Twin struct{ Name string }
+	return Twin{"small"}
+}
 
 // kShared: a slice and a function that shortens it (one pair per case)
 type kShared struct{ xs *[]string }
@@ -245,6 +266,22 @@ func kindValue(kind string) (interface{}, bool) {
 		return func(help plush.HelperContext) (string, error) {
 			return plush.Render(`<%= for (v) in [1, 2] { %><%= v %><% } %><% let q = 1 %><%= if (q) { %>q<% } %>`, help)
 		}, true
+	case "func_ptrhc":
+		return func(h *plush.HelperContext) string { return "ptrhc" }, true
+	case "func_embhc":
+		return func(h kEmbHC) string { return "embhc" }, true
+	case "func_bigifacehc":
+		return func(h kBigHC) string { return "bighc" }, true
+	case "slice_stringer1":
+		return []fmt.Stringer{kStringer{"s"}}, true
+	case "map_str_error":
+		return map[string]error{"k": errors.New("e")}, true
+	case "map_stringer_int":
+		return map[fmt.Stringer]int{kStringer{"s"}: 1}, true
+	case "twin_big":
+		return twinBig(), true
+	case "twin_small":
+		return twinSmall(), true
 	case "ptr_slice_shared", "func_shrink_shared":
 		return nil, false // built per case, see c04Run
 	case "float_nan":
